@@ -1,4 +1,9 @@
-//! Engine A: a deterministic baton-passing scheduler over real (parked) OS threads.
+//! Engine A: a deterministic baton-passing scheduler. Two interchangeable context-switch backends:
+//!   * cargo feature `coro` (default; flavours rel / feat-*): every simulated thread is a stackful coroutine
+//!     (corosensei) on the one OS thread that called `run`; giving up the baton is a ~20 ns stack switch;
+//!   * without it (flavour asan, and whenever the crate is interpreted by Miri): parked real OS threads, one condition
+//!     variable each; giving up the baton costs a futex round trip.
+//! Decisions, steps, traces and event logs are computed by the same code in both.
 //!
 //! Exactly one simulated thread holds the baton. It gives it up only at a scheduling point: between
 //! its operations, at simulated-mutex operations and at the `verif_hooks::sched_point` calls inside
@@ -61,6 +66,9 @@ pub struct Sched {
     cvs: Vec<Condvar>,
     done: Condvar,
     monitors: Mutex<Vec<Monitor>>,
+    /// coroutine backend: address of each simulated thread's yielder (valid while its coroutine is alive)
+    #[allow(dead_code)]
+    yielders: Vec<std::sync::atomic::AtomicUsize>,
 }
 
 thread_local! {
@@ -69,6 +77,42 @@ thread_local! {
     static HOOK_COUNT: Cell<u64> = const { Cell::new(0) };
     static HOOK_LIMIT: Cell<u64> = const { Cell::new(u64::MAX) };
     static BUDGET_HIT: Cell<u64> = const { Cell::new(0) };
+}
+
+/// The per-simulated-thread state that lives in thread-locals (scheduling-point counters and allowance here, the
+/// arithmetic-crash budget of `Fx`, the reference-call step memo). With coroutines all simulated threads share one OS
+/// thread, so the scheduler swaps this state at every context switch.
+#[derive(Clone, Copy)]
+pub struct TlsSnap {
+    hook_count: u64,
+    hook_limit: u64,
+    budget_hit: u64,
+    suspend: u32,
+    fx: (u64, u64),
+    last_ref: u64,
+}
+impl TlsSnap {
+    pub fn fresh() -> TlsSnap {
+        TlsSnap { hook_count: 0, hook_limit: u64::MAX, budget_hit: 0, suspend: 0, fx: (u64::MAX, 0), last_ref: 0 }
+    }
+    pub fn take() -> TlsSnap {
+        TlsSnap {
+            hook_count: HOOK_COUNT.with(|c| c.get()),
+            hook_limit: HOOK_LIMIT.with(|c| c.get()),
+            budget_hit: BUDGET_HIT.with(|c| c.get()),
+            suspend: SUSPEND.with(|c| c.get()),
+            fx: crate::elem::fx_tls_get(),
+            last_ref: crate::exec::last_ref_get(),
+        }
+    }
+    pub fn put(&self) {
+        HOOK_COUNT.with(|c| c.set(self.hook_count));
+        HOOK_LIMIT.with(|c| c.set(self.hook_limit));
+        BUDGET_HIT.with(|c| c.set(self.budget_hit));
+        SUSPEND.with(|c| c.set(self.suspend));
+        crate::elem::fx_tls_set(self.fx);
+        crate::exec::last_ref_set(self.last_ref);
+    }
 }
 
 /// Panic payload raised by the hook when a call exceeds its step allowance (bounded liveness).
@@ -142,6 +186,11 @@ pub struct SchedReport {
     pub aborted: bool,
 }
 
+/// Voluntary switches per run are capped where a switch is expensive (parked OS threads); with coroutines the cap is
+/// only a backstop.
+#[cfg(all(feature = "coro", not(miri)))]
+pub const SWITCH_CAP: u64 = 50_000;
+#[cfg(not(all(feature = "coro", not(miri))))]
 pub const SWITCH_CAP: u64 = 600;
 pub const SITE_OP: u32 = 20;
 pub const SITE_LOCK: u32 = 21;
@@ -187,6 +236,7 @@ impl Sched {
             cvs: (0..nthreads).map(|_| Condvar::new()).collect(),
             done: Condvar::new(),
             monitors: Mutex::new(Vec::new()),
+            yielders: (0..nthreads).map(|_| std::sync::atomic::AtomicUsize::new(0)).collect(),
         })
     }
 
@@ -204,40 +254,10 @@ impl Sched {
             st.current = first;
             st.trace.push((0, first as u16));
         }
-        let mut handles = Vec::new();
-        for (tid, body) in bodies.into_iter().enumerate() {
-            let me = Arc::clone(self);
-            let h = std::thread::Builder::new()
-                .stack_size(1 << 20)
-                .spawn(move || {
-                    CTX.with(|c| *c.borrow_mut() = Some((Arc::clone(&me), tid)));
-                    me.wait_for_baton(tid);
-                    let aborted = me.st.lock().unwrap().aborted;
-                    if !aborted {
-                        let r = std::panic::catch_unwind(std::panic::AssertUnwindSafe(body));
-                        if let Err(p) = r {
-                            if p.downcast_ref::<SimAbort>().is_none() {
-                                let msg = crate::exec::panic_msg(&p);
-                                let mut st = me.st.lock().unwrap();
-                                st.violations.push(("harness.thread-panic".into(), msg));
-                            }
-                        }
-                    }
-                    me.exit(tid);
-                    CTX.with(|c| *c.borrow_mut() = None);
-                })
-                .expect("spawn");
-            handles.push(h);
-        }
-        {
-            let mut st = self.st.lock().unwrap();
-            while st.state.iter().any(|s| *s != TState::Finished) {
-                st = self.done.wait(st).unwrap();
-            }
-        }
-        for h in handles {
-            let _ = h.join();
-        }
+        #[cfg(all(feature = "coro", not(miri)))]
+        self.run_coroutines(bodies);
+        #[cfg(not(all(feature = "coro", not(miri))))]
+        self.run_threads(bodies);
         let st = self.st.lock().unwrap();
         let mut th = Hasher64::default();
         for (s, t) in &st.trace {
@@ -257,10 +277,119 @@ impl Sched {
         }
     }
 
+    /// One body, whatever carries it: run it unless the run was aborted meanwhile, record a stray panic, leave.
+    fn run_body(self: &Arc<Self>, tid: usize, body: Box<dyn FnOnce() + Send>) {
+        let aborted = self.st.lock().unwrap().aborted;
+        if !aborted {
+            let r = std::panic::catch_unwind(std::panic::AssertUnwindSafe(body));
+            if let Err(p) = r {
+                if p.downcast_ref::<SimAbort>().is_none() {
+                    let msg = crate::exec::panic_msg(&p);
+                    let mut st = self.st.lock().unwrap();
+                    st.violations.push(("harness.thread-panic".into(), msg));
+                }
+            }
+        }
+        self.exit(tid);
+    }
+
+    /// Coroutine backend: the calling OS thread resumes whichever simulated thread holds the baton until all have finished.
+    #[cfg(all(feature = "coro", not(miri)))]
+    fn run_coroutines(self: &Arc<Self>, bodies: Vec<Box<dyn FnOnce() + Send>>) {
+        use corosensei::stack::DefaultStack;
+        use corosensei::{Coroutine, CoroutineResult};
+        use std::sync::atomic::Ordering;
+        let n = bodies.len();
+        let outer = TlsSnap::take();
+        let outer_ctx = CTX.with(|c| c.borrow_mut().take());
+        let mut snaps: Vec<TlsSnap> = vec![TlsSnap::fresh(); n];
+        let mut coros: Vec<Option<Coroutine<(), (), ()>>> = Vec::with_capacity(n);
+        for (tid, body) in bodies.into_iter().enumerate() {
+            let me = Arc::clone(self);
+            let stack = DefaultStack::new(1 << 20).expect("coroutine stack");
+            coros.push(Some(Coroutine::with_stack(stack, move |y: &corosensei::Yielder<(), ()>, _: ()| {
+                me.yielders[tid].store(y as *const _ as usize, Ordering::Relaxed);
+                me.run_body(tid, body);
+            })));
+        }
+        loop {
+            let cur = self.st.lock().unwrap().current;
+            if cur == usize::MAX {
+                break;
+            }
+            let Some(co) = coros[cur].as_mut() else {
+                // the baton went to a thread that has already finished: a scheduler bug, never a property violation
+                self.st.lock().unwrap().violations.push(("harness.baton-to-finished".into(), format!("thread {}", cur)));
+                break;
+            };
+            CTX.with(|c| *c.borrow_mut() = Some((Arc::clone(self), cur)));
+            snaps[cur].put();
+            let r = co.resume(());
+            snaps[cur] = TlsSnap::take();
+            if let CoroutineResult::Return(()) = r {
+                coros[cur] = None;
+            }
+        }
+        // anything still suspended (only after a harness error) is unwound by its destructor
+        drop(coros);
+        CTX.with(|c| *c.borrow_mut() = outer_ctx);
+        outer.put();
+    }
+
+    #[cfg(not(all(feature = "coro", not(miri))))]
+    fn run_threads(self: &Arc<Self>, bodies: Vec<Box<dyn FnOnce() + Send>>) {
+        let mut handles = Vec::new();
+        for (tid, body) in bodies.into_iter().enumerate() {
+            let me = Arc::clone(self);
+            let h = std::thread::Builder::new()
+                .stack_size(1 << 20)
+                .spawn(move || {
+                    CTX.with(|c| *c.borrow_mut() = Some((Arc::clone(&me), tid)));
+                    me.wait_for_baton(tid);
+                    me.run_body(tid, body);
+                    CTX.with(|c| *c.borrow_mut() = None);
+                })
+                .expect("spawn");
+            handles.push(h);
+        }
+        {
+            let mut st = self.st.lock().unwrap();
+            while st.state.iter().any(|s| *s != TState::Finished) {
+                st = self.done.wait(st).unwrap();
+            }
+        }
+        for h in handles {
+            let _ = h.join();
+        }
+    }
+
+    #[cfg(not(all(feature = "coro", not(miri))))]
     fn wait_for_baton(&self, tid: usize) {
         let mut st = self.st.lock().unwrap();
         while st.current != tid {
             st = self.cvs[tid].wait(st).unwrap();
+        }
+    }
+
+    /// The baton has been handed to somebody else: wait until it comes back to `tid`.
+    #[cfg(not(all(feature = "coro", not(miri))))]
+    fn park<'a>(&'a self, tid: usize, mut st: std::sync::MutexGuard<'a, St>) -> std::sync::MutexGuard<'a, St> {
+        while st.current != tid {
+            st = self.cvs[tid].wait(st).unwrap();
+        }
+        st
+    }
+    #[cfg(all(feature = "coro", not(miri)))]
+    fn park<'a>(&'a self, tid: usize, st: std::sync::MutexGuard<'a, St>) -> std::sync::MutexGuard<'a, St> {
+        drop(st);
+        loop {
+            let y = self.yielders[tid].load(std::sync::atomic::Ordering::Relaxed) as *const corosensei::Yielder<(), ()>;
+            // SAFETY: the pointer was stored by this very coroutine when it started and the yielder lives as long as it does
+            unsafe { (*y).suspend(()) };
+            let st = self.st.lock().unwrap();
+            if st.current == tid {
+                return st;
+            }
         }
     }
 
@@ -336,9 +465,7 @@ impl Sched {
         let next = st.decide(tid);
         if next != tid {
             self.hand_over(&mut st, tid, next);
-            while st.current != tid {
-                st = self.cvs[tid].wait(st).unwrap();
-            }
+            let st = self.park(tid, st);
             if st.aborted {
                 drop(st);
                 std::panic::resume_unwind(Box::new(SimAbort));
@@ -397,9 +524,7 @@ impl Sched {
             match st.pick_other(tid) {
                 Some(next) => {
                     self.hand_over(&mut st, tid, next);
-                    while st.current != tid {
-                        st = self.cvs[tid].wait(st).unwrap();
-                    }
+                    let st = self.park(tid, st);
                     if st.aborted {
                         drop(st);
                         std::panic::resume_unwind(Box::new(SimAbort));
